@@ -3,6 +3,7 @@
 package sess
 
 import (
+	"strings"
 	"bytes"
 	"context"
 	"encoding/xml"
@@ -84,6 +85,24 @@ func NewRebound(ns string, input string) (*xmpp.Session, *RW, error) {
 		return ready(ctx, in, out, s, data)
 	}
 	s, err := xmpp.NewSession(context.Background(), Location, Location, rw, st, neg)
+	return s, rw, err
+}
+
+// NewLang is like New, but the peer's stream header carried xml:lang='de' and
+// the negotiator recorded it, as the default negotiator does.
+func NewLang(ns string, input string) (*xmpp.Session, *RW, error) {
+	hdr := strings.Replace(Header(ns), " version=", " xml:lang='de' version=", 1)
+	rw := &RW{In: bytes.NewReader([]byte(hdr + input))}
+	var st xmpp.SessionState
+	if ns == stanza.NSServer {
+		st = xmpp.S2S
+	}
+	ready := ReadyNegotiator(ns, 0)
+	neg := func(ctx context.Context, in, out *stream.Info, s *xmpp.Session, data interface{}) (xmpp.SessionState, io.ReadWriter, interface{}, error) {
+		in.Lang, out.Lang = "de", "de"
+		return ready(ctx, in, out, s, data)
+	}
+	s, err := xmpp.NewSession(context.Background(), Location, Origin, rw, st, neg)
 	return s, rw, err
 }
 
